@@ -277,8 +277,33 @@ class AxisInterp:
                     AXNAME.get(pa) if isinstance(pa, str) else None)
             else:
                 env[p] = TOP
-        self.block(self.func.body, env)
+        end = self.block(self.func.body, env)
+        if end is not None:
+            self.exit_check(end, self.func)
         return self
+
+    def exit_check(self, env, node):
+        if self.depth:
+            return
+        for k, v in env.items():
+            if k.startswith('$stale:'):
+                _, owner, ax = k.split(':')
+                if v.c:
+                    self.sink('REINDEX', v.node or node,
+                              'reindex-after:%s' % ('_sample_ids' if ax == S
+                                                    else '_observation_ids'),
+                              'bad', 'the %s ids of %s are replaced but a '
+                              'path reaches the exit without '
+                              '%s._index_ids(...) rebuilding that lookup '
+                              '(None in its position): index()/exists() '
+                              'answer for the old ids'
+                              % (NAMEAX[ax], owner, owner))
+                else:
+                    self.sink('REINDEX', node,
+                              'reindex-after:%s' % ('_sample_ids' if ax == S
+                                                    else '_observation_ids'),
+                              'ok', 'the lookup of the replaced ids is '
+                              'rebuilt before the exit')
 
     # ---- statements ---------------------------------------------------
     def block(self, stmts, env):
@@ -397,6 +422,7 @@ class AxisInterp:
         if isinstance(st, ast.Return):
             if st.value is not None:
                 self.returns.append(self.ev(st.value, env))
+            self.exit_check(env, st)
             return None
         if isinstance(st, ast.Raise):
             return None
@@ -413,7 +439,11 @@ class AxisInterp:
             return a
         out = {}
         for k in set(a) | set(b):
-            if k.startswith('$ver:'):
+            if k.startswith('$stale:'):
+                x, y = a.get(k), b.get(k)
+                st = [v for v in (x, y) if v is not None and v.c]
+                out[k] = st[0] if st else V('const', c=False)
+            elif k.startswith('$ver:'):
                 if k in a and k in b and a[k] == b[k]:
                     out[k] = a[k]
                 else:
@@ -480,6 +510,10 @@ class AxisInterp:
             return
         kind, ax = self.FIELDS[target.attr]
         role = 'store:%s' % target.attr
+        if kind == 'ids' and dotted(target.value) and \
+                self.qual != 'Table.__init__':
+            env['$stale:%s:%s' % (dotted(target.value), ax)] = V(
+                'const', c=True, node=st)
         if val.k == 'none' or (val.k == 'const' and val.c is None):
             self.sink('STORE', st, role, 'ok', 'None')
             return
@@ -1626,12 +1660,17 @@ class AxisInterp:
     def index_ids(self, e, recv, env):
         """X._index_ids(observation_index, sample_index)"""
         slots = [('observation_index', O), ('sample_index', S)]
+        owner = dotted(e.func.value) if isinstance(e.func,
+                                                   ast.Attribute) else None
         for i, (pname, ax) in enumerate(slots):
             a = kwarg(e, pname) or (e.args[i] if len(e.args) > i else None)
             if a is None:
                 continue
             v = self.ev(a, env)
+            key = '$stale:%s:%s' % (owner, ax)
             if v.k == 'none':
+                if key in env:
+                    env[key] = V('const', c=False)
                 continue
             if v.k == 'index' and v.ax:
                 self.sink('REINDEX', e, 'index-slot:%s' % pname,
